@@ -27,25 +27,35 @@ func init() { vh.Register("C08", Run) }
 // ---- case description (JSON) ----
 
 type actJ struct {
-	A     string `json:"a"` // skip | skipAfter | allow | deny
+	A     string `json:"a"` // skip | skipAfter | allow | deny | block | pass
 	N     int    `json:"n,omitempty"`
 	M     string `json:"m,omitempty"`
 	Scope string `json:"scope,omitempty"` // "" | phase | request
 }
 
 type linkJ struct {
-	Key  int    `json:"key"` // request header X<key>; -1 = no operator (SecAction)
-	Rm   []int  `json:"rm,omitempty"`
-	Eng  string `json:"eng,omitempty"`  // ctl:ruleEngine=<On|DetectionOnly|Off> on this link
-	Acts []actJ `json:"acts,omitempty"` // flow actions written on the link (inert on non-starters)
+	Key  int      `json:"key"` // request header X<key>; -1 = no operator (SecAction)
+	Rm   []int    `json:"rm,omitempty"`
+	RmR  [][2]int `json:"rmr,omitempty"`  // ctl:ruleRemoveById=<lo>-<hi>
+	Eng  string   `json:"eng,omitempty"`  // ctl:ruleEngine=<On|DetectionOnly|Off> on this link
+	Acts []actJ   `json:"acts,omitempty"` // flow actions written on the link (inert on non-starters)
 }
 
 type ruleJ struct {
-	Marker string  `json:"marker,omitempty"` // SecMarker <name>
-	ID     int     `json:"id,omitempty"`
-	Phase  int     `json:"phase,omitempty"`
-	Links  []linkJ `json:"links,omitempty"`
-	Acts   []actJ  `json:"acts,omitempty"` // starter's flow/disruptive actions in written order
+	Marker string `json:"marker,omitempty"` // SecMarker <name>
+	// configure-time directives (exactly one of Marker / Default / Remove / a rule per entry)
+	Default *defaultJ `json:"default,omitempty"` // SecDefaultAction "phase:P,<da>"
+	Remove  []string  `json:"remove,omitempty"`  // SecRuleRemoveById <id|lo-hi> ...
+	Inherit bool      `json:"inherit,omitempty"` // the rule is written without any disruptive action (inherits the default one)
+	ID      int       `json:"id,omitempty"`
+	Phase   int       `json:"phase,omitempty"`
+	Links   []linkJ   `json:"links,omitempty"`
+	Acts    []actJ    `json:"acts,omitempty"` // starter's flow/disruptive actions in written order
+}
+
+type defaultJ struct {
+	Phase int    `json:"phase"`
+	DA    string `json:"da"` // pass | deny | allow | allow:phase | allow:request
 }
 
 type obsJ struct {
@@ -88,11 +98,31 @@ func actText(a actJ) string {
 		return "allow:" + a.Scope
 	case "deny":
 		return "deny"
+	case "block":
+		return "block"
+	case "pass":
+		return "pass"
 	}
 	panic("unknown action " + a.A)
 }
 
-func isDisruptive(a actJ) bool { return a.A == "allow" || a.A == "deny" }
+func isDisruptive(a actJ) bool {
+	return a.A == "allow" || a.A == "deny" || a.A == "block" || a.A == "pass"
+}
+
+// writtenActs: the starter's flow/disruptive actions exactly as written (an explicit pass is put in front
+// when the rule has no disruptive action and is not meant to inherit one)
+func writtenActs(r ruleJ) []actJ {
+	for _, a := range r.Acts {
+		if isDisruptive(a) {
+			return r.Acts
+		}
+	}
+	if r.Inherit {
+		return r.Acts
+	}
+	return append([]actJ{{A: "pass"}}, r.Acts...)
+}
 
 func confText(engine string, rules []ruleJ) string {
 	var b strings.Builder
@@ -102,20 +132,19 @@ func confText(engine string, rules []ruleJ) string {
 			b.WriteString("SecMarker " + r.Marker + "\n")
 			continue
 		}
+		if r.Default != nil {
+			b.WriteString(fmt.Sprintf("SecDefaultAction \"phase:%d,nolog,auditlog,%s\"\n", r.Default.Phase, r.Default.DA))
+			continue
+		}
+		if len(r.Remove) > 0 {
+			b.WriteString("SecRuleRemoveById " + strings.Join(r.Remove, " ") + "\n")
+			continue
+		}
 		for j, l := range r.Links {
 			var acts []string
 			if j == 0 {
 				acts = append(acts, "id:"+strconv.Itoa(r.ID), "phase:"+strconv.Itoa(r.Phase), "nolog")
-				hasDis := false
-				for _, a := range r.Acts {
-					if isDisruptive(a) {
-						hasDis = true
-					}
-				}
-				if !hasDis {
-					acts = append(acts, "pass")
-				}
-				for _, a := range r.Acts {
+				for _, a := range writtenActs(r) {
 					acts = append(acts, actText(a))
 				}
 			} else {
@@ -126,6 +155,9 @@ func confText(engine string, rules []ruleJ) string {
 			}
 			for _, id := range l.Rm {
 				acts = append(acts, "ctl:ruleRemoveById="+strconv.Itoa(id))
+			}
+			for _, rg := range l.RmR {
+				acts = append(acts, fmt.Sprintf("ctl:ruleRemoveById=%d-%d", rg[0], rg[1]))
 			}
 			if l.Eng != "" {
 				acts = append(acts, "ctl:ruleEngine="+l.Eng)
@@ -340,9 +372,91 @@ func rulesTerm(rules []ruleJ) string {
 			if j == 0 {
 				la = nil
 			}
-			ls[j] = "mkLink " + key + " " + natList(l.Rm) + " " + optMode(l.Eng) + " " + actsTerm(la, mi)
+			ls[j] = "mkLink " + key + " " + rmTerm(l.Rm, l.RmR) + " " + optMode(l.Eng) + " " + actsTerm(la, mi)
 		}
 		items[i] = fmt.Sprintf("mkRule %d %d None %s %s", r.ID, r.Phase, vh.List(ls), actsTerm(r.Acts, mi))
+	}
+	return vh.List(items)
+}
+
+func rmTerm(ids []int, ranges [][2]int) string {
+	t := natList(ids)
+	for _, rg := range ranges {
+		t = fmt.Sprintf("(%s ++ fl_range %d %d)", t, rg[0], rg[1])
+	}
+	return t
+}
+
+func oneAct(a actJ, mi map[string]int) string {
+	s := actsTerm([]actJ{a}, mi)
+	return s[1 : len(s)-1]
+}
+
+// directivesTerm prints the configuration as a list of Flow.fl_directive (fl_configure resolves
+// SecDefaultAction/block and SecRuleRemoveById inside Coq)
+func directivesTerm(rules []ruleJ) string {
+	mi := markerIndex(rules)
+	items := make([]string, len(rules))
+	for i, r := range rules {
+		switch {
+		case r.Marker != "":
+			items[i] = "DRule (fl_marker " + strconv.Itoa(mi[r.Marker]) + ") []"
+		case r.Default != nil:
+			da := "None"
+			switch r.Default.DA {
+			case "deny":
+				da = "(Some ADeny)"
+			case "allow":
+				da = "(Some (AAllow ScAll))"
+			case "allow:phase":
+				da = "(Some (AAllow ScPhase))"
+			case "allow:request":
+				da = "(Some (AAllow ScRequest))"
+			case "pass":
+			default:
+				panic("unknown default action " + r.Default.DA)
+			}
+			items[i] = fmt.Sprintf("DDefault %d %s", r.Default.Phase, da)
+		case len(r.Remove) > 0:
+			var ids []int
+			var ranges []string
+			var es []string
+			_ = ids
+			_ = ranges
+			for _, tok := range r.Remove {
+				if lo, hi, ok := strings.Cut(tok, "-"); ok {
+					es = append(es, "RmRange "+lo+" "+hi)
+				} else {
+					es = append(es, "RmId "+tok)
+				}
+			}
+			items[i] = "DRemove " + vh.List(es)
+		default:
+			ls := make([]string, len(r.Links))
+			for j, l := range r.Links {
+				key := "None"
+				if l.Key >= 0 {
+					key = "(K " + strconv.Itoa(l.Key) + ")"
+				}
+				la := l.Acts
+				if j == 0 {
+					la = nil
+				}
+				ls[j] = "mkLink " + key + " " + rmTerm(l.Rm, l.RmR) + " " + optMode(l.Eng) + " " + actsTerm(la, mi)
+			}
+			var sa []string
+			for _, a := range writtenActs(r) {
+				switch a.A {
+				case "pass":
+					sa = append(sa, "SPass")
+				case "block":
+					sa = append(sa, "SBlock")
+				default:
+					sa = append(sa, "SA ("+oneAct(a, mi)+")")
+				}
+			}
+			items[i] = fmt.Sprintf("DRule (mkRule %d %d None %s []) %s", r.ID, r.Phase, vh.List(ls), vh.List(sa))
+		}
 	}
 	return vh.List(items)
 }
@@ -490,7 +604,11 @@ func Run(cfg vh.Config) (*vh.Result, error) {
 			return nil, fmt.Errorf("rule set %d (%s) rejected: %v\n%s", si, set.Shape, err, conf)
 		}
 		name := fmt.Sprintf("rs_%d", si)
-		fmt.Fprintf(&prelude, "Definition %s : list fl_rule := %s.\n", name, rulesTerm(set.Rules))
+		configured, ckinds := configure(set.Rules)
+		for _, k := range ckinds {
+			dist.Inc("configure:" + k)
+		}
+		fmt.Fprintf(&prelude, "Definition %s : list fl_rule := fl_configure %s.\n", name, directivesTerm(set.Rules))
 		for ri, req := range set.Reqs {
 			c := &caseJ{Engine: set.Engine, Rules: set.Rules, Req: req, Shape: set.Shape, Conf: conf}
 			if ri < len(set.Hists) && len(set.Hists[ri]) > 0 {
@@ -526,7 +644,7 @@ func Run(cfg vh.Config) (*vh.Result, error) {
 			}
 			c.Obs = obs
 			// implementation-side oracle: the documented semantics, directly
-			want, kinds := specRun(set.Engine, set.Rules, req)
+			want, kinds := specRun(set.Engine, configured, req)
 			fired := len(kinds)
 			res.OracleEvaluations++
 			if d := diffObs(want, obs); d != "" {
